@@ -1982,7 +1982,11 @@ def n_char_to_digit(ex, callee, a, env):
 
 @native(r'^(core::)?num::<impl (u8|u16|u32|u64|usize)>::(div_ceil|next_multiple_of)$', 'uN::div_ceil')
 def n_div_ceil(ex, callee, a, env):
-    x, y = ex.concretize(a[0], 0, 64), ex.concretize(a[1], 0, 64)      # forks over the feasible values (small ranges only)
+    x, y = deref(a[0]), deref(a[1])
+    for v in (x, y):
+        if not (isinstance(v, int) or is_sym(v)):
+            raise Unsupported(f'div_ceil operand {v!r}')
+    x, y = ex.concretize(x, 0, 64), ex.concretize(y, 0, 64)      # forks over the feasible values (small ranges only)
     if y == 0:
         raise Panic('attempt to divide by zero')
     q = -(-x // y)
